@@ -1,0 +1,33 @@
+//go:build verif
+
+package unitpb
+
+// Machine-checked contracts for this package (comment-only; excluded from normal builds).
+
+//@ property C20
+//@ // ---- unit conversion: identity on equal units, through the SI unit of the category otherwise; an unknown unit or a
+//@ // unit of another category is an error that is reported ----
+//@ pure func known(u) = has(unitpb.siUnits, u)
+//@ pure func convertible(a, b) = a == b || (known(a) && known(b) && unitpb.siUnits[a].category == unitpb.siUnits[b].category)
+//@
+//@ // the unit table is initialised once with positive finite factors (convert.go:123-129) and never written
+//@ pure func tableOK() = forall u traits.Consumable_Unit :: known(u) ==> isFin(unitpb.siUnits[u].factor) && 0 < unitpb.siUnits[u].factor
+//@
+//@ func Convert(v, from, to) (r, err)
+//@   ensures [same] from == to ==> r == v && err == nil
+//@   ensures [error] !convertible(from, to) ==> err != nil
+//@   ensures [ok] convertible(from, to) ==> err == nil
+//@   ensures [value] convertible(from, to) && from != to ==> r == v * unitpb.siUnits[from].factor / unitpb.siUnits[to].factor
+//@   // the conversion back (its value is given by [value] with the units swapped) returns the original amount
+//@   ensures [round-trip] tableOK() && convertible(from, to) && from != to && isFin(v) ==> feq(r * unitpb.siUnits[to].factor / unitpb.siUnits[from].factor, v)
+//@   modifies nothing
+//@
+//@ // Convert32 as a mathematical function: it reads nothing but its arguments and the (constant) unit table
+//@ spec func conv32(v float32, from traits.Consumable_Unit, to traits.Consumable_Unit) float32
+//@
+//@ func Convert32(v, from, to) (r, err)
+//@   trusts err == nil ==> r == conv32(v, from, to)
+//@   ensures [same] from == to ==> r == v && err == nil
+//@   ensures [error] !convertible(from, to) ==> err != nil
+//@   ensures [ok] convertible(from, to) ==> err == nil
+//@   modifies nothing
